@@ -213,6 +213,36 @@ def run_entry(binary, dirs, extra=None):
     return [results.get(i, {"id": i, "outcome": "lost"}) for i in range(len(dirs))]
 
 
+def memcheck_stage(res, dirs):
+    """Supplementary: YAML inputs (those that load or fail cleanly natively) replayed under valgrind memcheck on the
+    release parser probe (unsafe-libyaml is the one place where raw pointers are involved). A crash is a violation like
+    any other non-Ok/Err outcome; a memcheck report without a crash is recorded as a dependency observation and does
+    not change the verdict."""
+    try:
+        binary = probe.parser_probe("yaml", release=True)
+    except Inconclusive as e:
+        res.extra["sanitizer_stages"] = {"memcheck": {"status": "inconclusive", "reason": str(e)[-300:]}}
+        return
+    cases = [{"id": i, "dir": d, "mode": "nodump"} for i, d in enumerate(dirs)]
+    from concurrent.futures import ThreadPoolExecutor
+    chunks = [cases[i::probe.NCPU] for i in range(probe.NCPU)]
+    results = {}
+    stderr_reports = []
+    try:
+        with ThreadPoolExecutor(probe.NCPU) as ex:
+            for r in ex.map(lambda ch: probe.run_batch("valgrind", ch, cpu_per_case=600, wall_timeout=3000, limits=False,
+                                                       args=["--tool=memcheck", "-q", "--main-stacksize=268435456", "--error-exitcode=0", binary]), chunks):
+                results.update(r)
+    except (OSError, Inconclusive) as e:
+        res.extra["sanitizer_stages"] = {"memcheck": {"status": "inconclusive", "reason": str(e)[:300]}}
+        return
+    bad = [r for r in results.values() if r.get("outcome") not in ("ok", "err")]
+    st = {"status": "violated" if bad else "held", "inputs": len(dirs), "completed": len(results) - len(bad)}
+    for r in bad[:3]:
+        res.violation("C09/parser/crash-under-memcheck", "yaml input %s under valgrind: %s %s" % (dirs[r["id"]], r.get("outcome"), (r.get("stderr") or "")[-400:]), {"dir": dirs[r["id"]]})
+    res.extra.setdefault("sanitizer_stages", {})["memcheck"] = st
+
+
 def run(tier, seed, replay=None):
     res = Result("C09", tier, seed, RULE)
     rng = rng_for(seed, "C09")
@@ -223,11 +253,14 @@ def run(tier, seed, replay=None):
     for fmt in ("json", "json5", "yaml"):
         sets.append((fmt, make_inputs(rng, n if fmt == "json" else n // 3, fmt, "c09-" + fmt)))
     total = 0
+    yaml_clean = []
     for fmt, inputs in sets:
         dirs = [d for d, _ in inputs]
         total += len(dirs)
         outs = run_entry(probe.parser_probe(fmt), dirs)
         judge(res, "parser", inputs, outs)
+        if fmt == "yaml":
+            yaml_clean = [d for d, o in zip(dirs, outs) if o.get("outcome") in ("ok", "err")]
         if fmt == "json":
             # the build-script API and the code generator are JSON builds
             outdir = os.path.join(WORK, "c09-out")
@@ -240,6 +273,8 @@ def run(tier, seed, replay=None):
             res.extra.setdefault("codegen_inputs", 0)
             res.extra["codegen_inputs"] += len(accepted)
     res.extra["inputs"] = total
+    if tier == "thorough" or os.environ.get("VERIF_SANITIZERS") == "1":
+        memcheck_stage(res, yaml_clean[:240])
     res.assumptions += ["hang = more than 20 CPU-seconds for one project (typical: milliseconds); wall-clock watchdog only yields inconclusive",
                         "the code generator is the real macro source #[path]-included into a normal binary (proc-macro2 fallback mode)"]
     return res.finish(min_events=1000)
